@@ -2,6 +2,7 @@ package c18
 
 import (
 	"context"
+	"sync"
 	"testing"
 	"time"
 
@@ -25,7 +26,7 @@ func TestRegressEnvelopeBanDisconnects(t *testing.T) {
 		{"undecodable response", false, []byte{0x0a, 0x05, 0x01}},
 		{"unknown procedure in a response", false, encodeEnvelope("id", "noSuchProcedure", []byte("x"), "", true)},
 	} {
-		s := escn{N: 2, IPs: []int{2, 3}, Security: p2p.ConnectionSecurityNone, ExpiryS: 2, SweepMs: 100, Limit: 5, Penalty: 10, BlackOf: -1}
+		s := escn{N: 2, IPs: []int{2, 3}, Security: p2p.ConnectionSecurityNone, ExpiryS: 2, SweepMs: 100, Limit: 5, Penalty: 10, BlackOf: -1, DialOnly: -1}
 		r := &erun{s: s, start: time.Now(), res: &seqResult{labels: map[string]bool{}}}
 		if err := r.setup(); err != nil {
 			r.teardown()
@@ -58,6 +59,67 @@ func TestRegressEnvelopeBanDisconnects(t *testing.T) {
 				continue
 			}
 			t.Fatalf("C18 violated: %s: the offender's IP is banned (score >= %d) but the peer is still connected 2 s later [signature %s]", c.name, threshold, sigF1)
+		}
+	}
+}
+
+// TestRegressDialOnlyPeerBan: fixed scenarios with a peer that has no listen address (Config.Addresses empty): it
+// connects inbound from an IP it never announces (127.0.0.1, the other node listens on 127.0.0.2). Every way of reaching
+// the threshold - handler-issued BanPeer, ApplyPenalty in two steps, an undecodable envelope, an unknown procedure, on
+// the request and the response protocol - must be accounted to the IP the connection really comes from: the peer is
+// disconnected, its re-dial and an outbound attempt towards that IP are refused until the ban is seen over, then it is
+// accepted again and a small penalty starts from a clean score. (A BanPeer that walks over the peer's *announced*
+// addresses instead of its live connections bans nothing here.)
+func TestRegressDialOnlyPeerBan(t *testing.T) {
+	type script struct {
+		name  string
+		cause string
+		offs  []eev
+	}
+	scripts := []script{
+		{"BanPeer from a handler", "app-ban", []eev{{Kind: "app", From: 1, To: 0, K: 0}}},
+		{"ApplyPenalty 60+40 from a handler", "app-penalty", []eev{{Kind: "app", From: 1, To: 0, K: 60}, {Kind: "app", From: 1, To: 0, K: 40}}},
+		{"undecodable request envelope", "badreq", []eev{{Kind: "badreq", From: 1, To: 0, Bytes: []byte{0x0a, 0x05, 0x01}}}},
+		{"unknown procedure in a request", "unkreq", []eev{{Kind: "unkreq", From: 1, To: 0}}},
+		{"undecodable response envelope", "badres", []eev{{Kind: "badres", From: 1, To: 0, Bytes: []byte{0x0a, 0x05, 0x01}}}},
+		{"unknown procedure in a response", "unkres", []eev{{Kind: "unkres", From: 1, To: 0}}},
+	}
+	results := make([]*seqResult, len(scripts))
+	var wg sync.WaitGroup
+	for i, sc := range scripts {
+		s := escn{On: true, N: 2, IPs: []int{2, 3}, Security: []string{p2p.ConnectionSecurityNone, p2p.ConnectionSecurityTLS, p2p.ConnectionSecurityNoise}[i%3],
+			ExpiryS: 2, SweepMs: 100, Limit: 5, Penalty: 10, BlackOf: -1, DialOnly: 1}
+		s.Events = append(s.Events, eev{Kind: "req", From: 1, To: 0})
+		s.Events = append(s.Events, sc.offs...)
+		s.Events = append(s.Events,
+			eev{Kind: "dial", From: 1, To: 0}, // the banned peer dials again
+			eev{Kind: "dial", From: 0, To: 1}, // outbound attempt towards the banned IP
+			eev{Kind: "await", From: 1, To: 0},
+			eev{Kind: "dial", From: 1, To: 0},
+			eev{Kind: "dial", From: 0, To: 1},
+			eev{Kind: "app", From: 1, To: 0, K: 7})
+		wg.Add(1)
+		go func(i int, s escn) {
+			defer wg.Done()
+			results[i] = runScenarioRobust(s)
+		}(i, s)
+	}
+	wg.Wait()
+	for i, sc := range scripts {
+		res := results[i]
+		switch {
+		case res.violation != "":
+			t.Errorf("C18 violated (dial-only peer, %s; 3 attempts): %s\nhistory:\n%s", sc.name, res.violation, res.render())
+		case res.infra != "":
+			evid.R.Inconclusive("dial-only regression scenario %q dropped: %s", sc.name, res.infra)
+		default:
+			if !res.labels["dial-only-peer-banned-by:"+sc.cause] {
+				t.Errorf("harness: script %q passed without banning the dial-only peer\n%s", sc.name, res.render())
+			}
+			if !res.nontrivial {
+				evid.R.Note("dial-only regression script %q: no refusal observed while the ban was certain (slow run)", sc.name)
+			}
+			register("e2e-dial-only-regress", res)
 		}
 	}
 }
